@@ -291,7 +291,7 @@ def run(ctx):
             if ok:
                 # identity term weight (1 - p)/d ; projector term weight p
                 wa = repr(a[0])
-                ok_a = "('neg', ('n', 'param_p'))" in wa and ("('c', ('1/'" in wa or "'/'" in wa) and mentions_name(a[0], "dim")
+                ok_a = "('neg', ('n', 'param_p'))" in wa and "'/'" in wa and mentions_name(a[0], "dim")
                 ok_b = b[0][0] == "*" and ("n", "param_p") in b[0][1] and "neg" not in repr([x for x in b[0][1] if x[0] != "@"])
                 ok = ok_a and ok_b
         ctx.ob("R-PRED", dp, "Choi == (1-p) I/d + p |psi><psi|", ok, "convex mixture of completely depolarising and identity channels" if ok else f"formula {show(t)[:140]}", rn)
